@@ -94,6 +94,10 @@ BOUNDARY_YEARS = [-10001, -10000, -9999, -1001, -1000, -999, -401, -400, -399, -
                   99, 100, 101, 399, 400, 401, 999, 1000, 1582, 1583, 1599, 1600, 1601, 1677, 1678, 1899, 1900, 1901, 1969, 1970,
                   1971, 1999, 2000, 2001, 2023, 2024, 2038, 2099, 2100, 2101, 2261, 2262, 2263, 2399, 2400, 2401, 9999, 10000,
                   10001, 99999, 100000, 5881580, -5877641, 292277026596, -292277022657, 10 ** 15, -10 ** 15]
+# years beyond the 32-bit range whose century / 400-year class differs from that of the year truncated to 32 bits
+# (2^32 mod 400 = 96): leap-year logic done on a narrowed year goes wrong exactly here
+BOUNDARY_YEARS += [b + r for b in (2 ** 31, -2 ** 31, 2 ** 32, -2 ** 32, 2 ** 33, 3 * 2 ** 32, -3 * 2 ** 32, 10 * 2 ** 32)
+                   for r in (-4, 0, 4, 96, 100, 104, 196, 200, 204, 296, 300, 304, 396, 400, 404)]
 
 
 def boundary_dates():
